@@ -714,12 +714,16 @@ def check_bindings(tree, origin):
                     note((a.asname or a.name).split(".")[0], ("import", a.name, a.asname), n)
             elif isinstance(n, ast.ImportFrom):
                 for a in n.names:
+                    if a.name == "*":
+                        refuse(n, "star import in %s" % origin)
                     note(a.asname or a.name, ("from", n.module, a.name), n)
             elif isinstance(n, (ast.FunctionDef, ast.AsyncFunctionDef, ast.ClassDef)):
                 note(n.name, ("def",), n)
             elif isinstance(n, ast.Try):
                 toplevel(n.body)
                 for h in n.handlers:
+                    if h.name:
+                        note(h.name, ("assign",), h)
                     toplevel(h.body)
                 toplevel(n.orelse)
                 toplevel(n.finalbody)
@@ -727,9 +731,14 @@ def check_bindings(tree, origin):
                 toplevel(n.body)
                 toplevel(n.orelse)
             else:
+                # any other module-level statement: every name it can bind
                 for m in ast.walk(n):
                     if isinstance(m, ast.Name) and isinstance(m.ctx, (ast.Store, ast.Del)):
                         note(m.id, ("assign",), m)
+                    elif isinstance(m, (ast.Import, ast.ImportFrom)):
+                        toplevel([m])
+                    elif isinstance(m, (ast.FunctionDef, ast.AsyncFunctionDef, ast.ClassDef)):
+                        note(m.name, ("def",), m)
     toplevel(tree.body)
     for n in ast.walk(tree):
         if isinstance(n, (ast.Global, ast.Nonlocal)):
